@@ -198,7 +198,58 @@ def generate():
     expect(dev, dev.func(F, "__gets"), [], "return dict(((oid, identity[oid]) for oid in object_ids if identity[oid]))")
     I = "ModbusDeviceIdentification"
     expect(dev, dev.func(I, "__getitem__"), [], "return self.__data.setdefault(key, '')")
-    expect(dev, dev.func(I, "__setitem__"), [], "if key not in [7, 8]:\n    self.__data[key] = value")
+    # ---- configuration API of ModbusDeviceIdentification (every path by which an object gets its value)
+    fn = dev.func(I, "__setitem__")
+    b = strip(fn.body)
+    if not (len(b) == 1 and isinstance(b[0], ast.If) and isinstance(b[0].test, ast.Compare)
+            and len(b[0].test.ops) == 1 and isinstance(b[0].test.ops[0], ast.NotIn)
+            and ast.unparse(b[0].test.left) == "key" and isinstance(b[0].test.comparators[0], (ast.List, ast.Tuple))):
+        dev.fail(fn, "__setitem__: expected `if key not in [<ids>]: self.__data[key] = value`")
+    excl = b[0].test.comparators[0]
+    D["excluded"] = coq_list(coq_z(core.const_int(dev, e)) for e in excl.elts)
+    expect(dev, fn, [(excl, "EXCLUDED")], "if key not in EXCLUDED:\n    self.__data[key] = value")
+    expect(dev, dev.func(I, "update"), [], "self.__data.update(value)")
+    expect(dev, dev.func(I, "__iter__"), [], "return iteritems(self.__data)")
+    fn = dev.func(I, "__init__")
+    b = strip(fn.body)
+    cond = None
+    try:
+        cond = b[0].body[0].body[0].test
+    except (AttributeError, IndexError):
+        dev.fail(fn, "__init__: expected `if isinstance(info, dict): for key in info: if <cond>: ...`")
+    D["init_accepts"] = ExprTr(dev, {"key"}).tr_bool(cond)
+    expect(dev, fn, [(cond, "ACCEPT")],
+           "if isinstance(info, dict):\n    for key in info:\n        if ACCEPT:\n            self.__data[key] = info[key]")
+    data0 = dev.class_attr(I, "__data")
+    try:
+        d0 = ast.literal_eval(data0)
+    except Exception:
+        d0 = None
+    if not (isinstance(d0, dict) and all(isinstance(k, int) and v == '' for k, v in d0.items())):
+        dev.fail(dev.cls(I), "__data: expected a literal dict of blank values")
+    props = []
+    for n in dev.cls(I).body:
+        if isinstance(n, ast.Assign) and isinstance(n.value, ast.Call) and ast.unparse(n.value.func) == "dict_property":
+            if not (len(n.targets) == 1 and isinstance(n.targets[0], ast.Name) and len(n.value.args) == 2
+                    and ast.unparse(n.value.args[0]) == "lambda s: s.__data"):
+                dev.fail(n, "unrecognised dict_property definition")
+            props.append("(%s, %s)" % (core.coq_str(n.targets[0].id), coq_z(core.const_int(dev, n.value.args[1]))))
+    if not props:
+        dev.fail(dev.cls(I), "no dict_property definitions found")
+    D["properties"] = coq_list(props)
+    utl = Src("pymodbus/utilities.py")
+    expect(utl, utl.func(None, "dict_property"), [],
+           "if hasattr(store, '__call__'):\n    getter = lambda self: store(self)[index]\n"
+           "    setter = lambda self, value: store(self).__setitem__(index, value)\n"
+           "elif isinstance(store, str):\n    getter = lambda self: self.__getattribute__(store)[index]\n"
+           "    setter = lambda self, value: self.__getattribute__(store).__setitem__(index, value)\n"
+           "else:\n    getter = lambda self: store[index]\n    setter = lambda self, value: store.__setitem__(index, value)\n"
+           "return property(getter, setter)")
+    cb = Src("pymodbus/device.py")
+    ident_attr = cb.class_attr("ModbusControlBlock", "Identity")
+    if ident_attr is None or ast.unparse(ident_attr) != "property(lambda s: s.__identity)" \
+            or ast.unparse(cb.class_attr("ModbusControlBlock", "__identity") or ast.Constant(value=0)) != "ModbusDeviceIdentification()":
+        cb.fail(cb.cls("ModbusControlBlock"), "ModbusControlBlock.Identity is not the shared ModbusDeviceIdentification()")
 
     lk = dev.class_attr(F, "__lookup")
     if not isinstance(lk, ast.Dict):
@@ -259,6 +310,8 @@ def generate():
                ("c_lookup", D["lookup"]),
                ("c_more_nothing", coq_z(more["Nothing"])), ("c_more_keep", coq_z(more["KeepReading"])),
                ("c_basic", coq_z(di["Basic"])), ("c_regular", coq_z(di["Regular"])),
-               ("c_extended", coq_z(di["Extended"])), ("c_specific", coq_z(di["Specific"]))]),
+               ("c_extended", coq_z(di["Extended"])), ("c_specific", coq_z(di["Specific"])),
+               ("c_init_accepts", D["init_accepts"]), ("c_setitem_excluded", D["excluded"]),
+               ("c_properties", D["properties"])]),
            "|}.\n"]
     return {"GenDevInfo.v": "\n".join(out)}
